@@ -344,6 +344,10 @@ def _oracle_c02(t, impl):
     h = [f_of_hex(x) for x in parts[1].split()]
     if len(h) != k * k or len(g1) != k:
         return "shape: gradient %d, Hessian %d entries for %d names" % (len(g1), len(h), k)
+    import math
+    val = f_of_hex(head[1])
+    if math.isfinite(val) and any(not math.isfinite(x) for x in g1 + h):
+        return "non-finite first or second derivative although the value is finite"
     for i in range(k):
         for j in range(i):
             a, b = h[i * k + j], h[j * k + i]
@@ -359,7 +363,14 @@ def _oracle_c02(t, impl):
     return None
 
 
+def _key_c02(t, il, ml):
+    if t[0] == "evalgrad2" and len(t) <= 4:
+        return " ".join(t)
+    return t[0]
+
+
 PROPS["C02"] = Prop(rule=_formula_rule % ", Hessian by name pair, gradient2 read-back, conversion down to first order",
                     classify=_cls_formula, mode="close", exhaustive=lambda tier: False, oracle=_oracle_c02,
+                    finding_key=_key_c02,
                     trusted=_dual_trusted + ["statrs erfc/erfc_inv ported to Lean Float for the driver"],
                     assumptions=_dual_assume)
